@@ -123,7 +123,7 @@ def cmd_run(sid, props, tier):
 ALL_PROPS = [f'C{i:02d}' for i in range(1, 21)]
 
 
-def cmd_harmless(prop, wt):
+def cmd_harmless(prop, wt, tag='h'):
     """imports harmless_N.diff of a sub-agent worktree as seeded/harmless/<prop>-hN/, applies each to /repo, runs ALL checks (quick) and expects exit 0 everywhere"""
     metas = []
     try:
@@ -134,7 +134,7 @@ def cmd_harmless(prop, wt):
         src = os.path.join(wt, f'harmless_{i}.diff')
         if not os.path.exists(src):
             continue
-        sid = f'{prop}-h{i}'
+        sid = f'{prop}-{tag}{i}'
         d = os.path.join(SEEDED, 'harmless', sid)
         os.makedirs(d, exist_ok=True)
         shutil.copy(src, os.path.join(d, 'patch.diff'))
@@ -220,6 +220,6 @@ if __name__ == '__main__':
     elif a[0] == 'table':
         cmd_table()
     elif a[0] == 'harmless':
-        cmd_harmless(a[1], a[2])
+        cmd_harmless(a[1], a[2], a[3] if len(a) > 3 else 'h')
     elif a[0] == 'harmless-run':
         cmd_harmless_run(a[1], a[2:] or None)
